@@ -6,6 +6,7 @@ import (
 	"encoding/json"
 	"fmt"
 	"sync"
+	"sync/atomic"
 	"testing"
 	"time"
 
@@ -19,12 +20,15 @@ const client = "client1"
 
 // Case is one distributed account, one pair of conflicting duties and a routing.
 type Case struct {
-	IDs        []uint64 `json:"ids"`
-	N          uint32   `json:"participants"`
-	T          uint32   `json:"threshold"`
-	Conflict   string   `json:"conflict"` // double-vote | a-surrounds-b | b-surrounds-a | two-blocks
-	History    int      `json:"benign_history"`
-	Routing    [][]int  `json:"routing"` // per participant: ordered duties (0 = A, 1 = B), repeats allowed
+	IDs      []uint64 `json:"ids"`
+	N        uint32   `json:"participants"`
+	T        uint32   `json:"threshold"`
+	Conflict string   `json:"conflict"` // double-vote | a-surrounds-b | b-surrounds-a | two-blocks
+	History  int      `json:"benign_history"`
+	Routing  [][]int  `json:"routing"` // per participant: ordered duties (0 = A, 1 = B), repeats allowed
+	// Batch[i][k] says whether participant i's k-th request travels in a batch call (next to a benign
+	// attestation of an ordinary account of that instance) instead of a single call.
+	Batch      [][]bool `json:"batch,omitempty"`
 	Concurrent bool     `json:"concurrent"`
 	ByKey      bool     `json:"by_key"`
 	ViaGRPC    bool     `json:"via_grpc"`
@@ -73,7 +77,7 @@ type outcome struct {
 }
 
 func run(c *Case) (*outcome, *vkit.Violation, error) {
-	cl, err := vkit.NewCluster(vkit.ClusterOpts{IDs: c.IDs})
+	cl, err := vkit.NewCluster(vkit.ClusterOpts{IDs: c.IDs, NDAccounts: 1})
 	if err != nil {
 		return nil, nil, err
 	}
@@ -123,12 +127,36 @@ func run(c *Case) (*outcome, *vkit.Violation, error) {
 	var mu sync.Mutex
 	partials := [2]map[uint64][]byte{{}, {}}
 	offered := [2]map[uint64]bool{{}, {}}
-	send := func(p part, d int) *vkit.Violation {
+	var benign atomic.Uint64
+	benign.Store(1000)
+	send := func(p part, d int, batch bool) *vkit.Violation {
 		var r vkit.Res
 		var rt [32]byte
 		if ds[d].att != nil {
 			a := *ds[d].att
-			r = p.node.Stack.Attest(client, "", target(p), c.ViaGRPC, &a)
+			if batch {
+				// the duty as one position of a batch call, next to an ordinary account's attestation
+				other := p.node.World.ByPath[vkit.NWallet+"/Account 0"]
+				e := benign.Add(2)
+				b := &vkit.Att{Slot: 1, BlockRoot: root(e, 1), SrcEpoch: e, SrcRoot: root(0, 2), TgtEpoch: e + 1, TgtRoot: root(0, 3), Domain: attDomain()}
+				first := e%4 == 0
+				ts := []vkit.Target{target(p), vkit.TargetOf(other, false)}
+				as := []*vkit.Att{&a, b}
+				if !first {
+					ts[0], ts[1] = ts[1], ts[0]
+					as[0], as[1] = as[1], as[0]
+				}
+				rs := p.node.Stack.AttestBatch(client, "", ts, c.ViaGRPC, as)
+				idx := 0
+				if !first {
+					idx = 1
+				}
+				if idx < len(rs) {
+					r = rs[idx]
+				}
+			} else {
+				r = p.node.Stack.Attest(client, "", target(p), c.ViaGRPC, &a)
+			}
 			rt = vkit.SigningRoot(vkit.AttDataRoot(&a), a.Domain)
 		} else {
 			pr := *ds[d].prop
@@ -147,6 +175,9 @@ func run(c *Case) (*outcome, *vkit.Violation, error) {
 
 		return nil
 	}
+	viaBatch := func(i, k int) bool {
+		return i < len(c.Batch) && k < len(c.Batch[i]) && c.Batch[i][k]
+	}
 	var viol *vkit.Violation
 	if c.Concurrent {
 		var wg sync.WaitGroup
@@ -155,22 +186,22 @@ func run(c *Case) (*outcome, *vkit.Violation, error) {
 				break
 			}
 			wg.Add(1)
-			go func(p part, list []int) {
+			go func(i int, p part, list []int) {
 				defer wg.Done()
 				var inner sync.WaitGroup
-				for _, d := range list {
+				for k, d := range list {
 					inner.Add(1)
-					go func(d int) {
+					go func(k int, d int) {
 						defer inner.Done()
-						if v := send(p, d); v != nil {
+						if v := send(p, d, viaBatch(i, k)); v != nil {
 							mu.Lock()
 							viol = v
 							mu.Unlock()
 						}
-					}(d)
+					}(k, d)
 				}
 				inner.Wait()
-			}(p, c.Routing[i])
+			}(i, p, c.Routing[i])
 		}
 		wg.Wait()
 	} else {
@@ -182,7 +213,7 @@ func run(c *Case) (*outcome, *vkit.Violation, error) {
 					continue
 				}
 				any = true
-				if v := send(p, c.Routing[i][step]); v != nil {
+				if v := send(p, c.Routing[i][step], viaBatch(i, step)); v != nil {
 					viol = v
 				}
 			}
@@ -277,6 +308,19 @@ func TestC14(t *testing.T) {
 				list = rapid.SliceOfN(rapid.IntRange(0, 1), 1, 4).Draw(rt, "route")
 			}
 			c.Routing = append(c.Routing, list)
+			paths := make([]bool, len(list))
+			switch rapid.IntRange(0, 3).Draw(rt, "path_kind") {
+			case 0: // everything single
+			case 1: // duty A single, duty B in a batch
+				for k, d := range list {
+					paths[k] = d == 1
+				}
+			default:
+				for k := range list {
+					paths[k] = rapid.Bool().Draw(rt, "via_batch")
+				}
+			}
+			c.Batch = append(c.Batch, paths)
 		}
 		stop := vkit.Watch(c, 120*time.Second)
 		o, v, err := run(c)
@@ -290,6 +334,17 @@ func TestC14(t *testing.T) {
 			vkit.S.Class("conflict-" + c.Conflict)
 			if c.Concurrent {
 				vkit.S.Class("concurrent-delivery")
+			}
+			mixed := false
+			for i := range c.Batch {
+				single, batch := false, false
+				for _, b := range c.Batch[i] {
+					single, batch = single || !b, batch || b
+				}
+				mixed = mixed || (single && batch)
+			}
+			if mixed && ds14att(c) {
+				vkit.S.Class("instance-reached-over-single-and-batch-calls")
 			}
 			if o.signed[0] >= int(c.T) || o.signed[1] >= int(c.T) {
 				vkit.S.Class("one-duty-reached-threshold")
@@ -306,3 +361,5 @@ func TestC14(t *testing.T) {
 		vkit.Report(rt, "C14", "TestC14", c, v)
 	})
 }
+
+func ds14att(c *Case) bool { return c.Conflict != "two-blocks" }
